@@ -37,7 +37,9 @@ EchoOK(e, extra) ==
     [] e.k = "unspec-or-none" -> extra = <<>> \/ IsOneLine(extra)
     [] OTHER -> TRUE
 
-Recs == ndJsonDeserialize(IOEnv.TRACE)
+\* parsed once at start-up into a TLC register (TLC re-evaluates a definition that reads a file on every reference)
+ASSUME TLCSet(7, ndJsonDeserialize(IOEnv.TRACE))
+Recs == TLCGet(7)
 IsPrefixOf(a, b) == Len(a) <= Len(b) /\ SubSeq(b, 1, Len(a)) = a
 Verdict(rec) ==
   LET e == Echo(rec.prog)
